@@ -7,7 +7,8 @@ Declarative expectations only (no merge code of the model is used here):
   * Host: the ammo's (URL host, `host` field or Host line) when it has one, else the configured one, else the
     target's host;
   * method, request-URI, body bytes unchanged; TLS iff `ssl`; everything arrives at the target;
-  * connections: ≤ instances with keep-alive, = requests without.
+  * connections: ≤ instances with keep-alive, = requests without (judged when neither the ammo nor the option
+    defines a `Connection` header: an explicit `Connection: close` is the ammo's own demand).
 Headers the transport manages on its own (Content-Length, Transfer-Encoding, Connection, Trailer, a defaulted
 User-Agent) are not compared; User-Agent is single-valued in net/http (first value is written).
 -/
@@ -47,7 +48,11 @@ def seenLines (f : Format) (lines : List (Str × Str)) : List (Str × Str) :=
   | .raw => lines.map fun kv => (kv.1, trimHTTP kv.2)
   | _ => lines
 
-def urlHost (f : Format) (e : Entry) : Str := (splitURL (urlOf f e)).1
+def urlHost (f : Format) (e : Entry) : Str := (splitURLv (viaOf f) (urlOf f e)).1
+
+/-- the request-URI the entry must arrive with: its URI as the format's parser reads it (`URL.RequestURI()`); for an
+origin-form URI (one leading `/`) that is the URI itself, see `C09_origin_form_unchanged` -/
+def wireURI (f : Format) (e : Entry) : Str := (splitURLv (viaOf f) (urlOf f e)).2
 
 /-- the Host line of the entry, if any -/
 def fileHost (f : Format) (lines : List (Str × Str)) : Option Str :=
@@ -85,6 +90,8 @@ structure Rec where
   tls : Bool
   header : List (Str × List Str)
   body : Str
+  /-- major protocol version the target saw (informative: 2 for the http2 gun) -/
+  major : Nat := 1
   deriving Repr
 
 structure Obs where
@@ -93,6 +100,10 @@ structure Obs where
   conns : Nat
   runOk : Bool
   reqs : List Rec
+  /-- connect gun: every CONNECT the target answered names the gun's target -/
+  tunOk : Bool := true
+  /-- requests that reached the decoy host the target redirects to -/
+  decoy : Nat := 0
   deriving Repr
 
 def managed (n : Str) : Bool :=
@@ -125,7 +136,7 @@ def eqStr (a b : Str) : Bool := a = b
 /-- first failing aspect of one recorded request against its expectation, "" = fine -/
 def judgeReq (w : Want) (r : Rec) : String :=
   if r.method ≠ methodOf w.f w.e then "method:method token changed"
-  else if r.uri ≠ (splitURL (urlOf w.f w.e)).2 then "uri:request-URI changed"
+  else if r.uri ≠ wireURI w.f w.e then "uri:request-URI changed"
   else if r.body ≠ bodyOf w.f w.e then "body:body bytes changed"
   else if r.tls ≠ w.ssl then "scheme:scheme differs from the ssl option"
   else if !hostOk w.f w.conf w.lines w.e w.targetHost r.host then
@@ -147,17 +158,24 @@ def judgeAll : List Want → List Rec → String
   | w :: ws, r :: rs => let v := judgeReq w r; if v = "" then judgeAll ws rs else v
   | _, _ => "count:number of recorded requests"
 
+/-- the entry or the option says something about `Connection` -/
+def mentionsConnection (w : Want) : Bool :=
+  (w.lines.any fun kv => canon kv.1 = connKey) || (w.conf.any fun kv => canon kv.1 = connKey)
+
 /-- verdict for a well-formed case. `match_` = the target kind (plain/TLS) fits the ssl option. -/
 def judge (wants : List Want) (match_ : Bool) (ka : Bool) (inst : Nat) (o : Obs) : String :=
   if !match_ then
     (if o.n = 0 then "ok" else "fail:scheme:request arrived although the scheme does not fit the target")
+  else if o.decoy ≠ 0 then "fail:target:a request reached a host that is not the gun's target (redirect followed)"
+  else if !o.tunOk then "fail:target:the CONNECT tunnel does not name the gun's target"
   else if !o.runOk then "fail:run:provider failed on well-formed ammo"
   else if o.n = 0 ∧ wants ≠ [] then "fail:target:nothing arrived at the gun's target"
   else if o.n ≠ wants.length ∨ o.reqs.length ≠ o.n then s!"fail:count:{o.n} requests arrived, {wants.length} entries"
   else
     match judgeAll wants o.reqs with
     | "" =>
-      if ka ∧ o.conns > inst then s!"fail:conns:{o.conns} connections for {inst} instances with keep-alive"
+      if wants.any mentionsConnection then "ok"
+      else if ka ∧ o.conns > inst then s!"fail:conns:{o.conns} connections for {inst} instances with keep-alive"
       else if !ka ∧ o.conns ≠ o.n then s!"fail:conns:{o.conns} connections for {o.n} requests without keep-alive"
       else "ok"
     | v => "fail:" ++ v
